@@ -439,12 +439,25 @@ package ion
 //@ ensures[C03,C06,C08] err == nil ==> bsLocal(b) && bsConsumed(b, old(b.pos), old(bsS(b).cur), old(b.len)) && result != nil
 //@ safe[C06]
 
+//@ func (*Decimal).trunc
+//@ trusted thin: called by contract (digit-string based, outside the subset); assumed not to touch its operand
+//@ requires specDecWF(d)
+//@ modifies nothing
+//@ func (*Decimal).round
+//@ trusted thin: called by contract (floating point based, outside the subset); assumed not to touch its operand
+//@ requires specDecWF(d)
+//@ modifies nothing
+
+// The fraction of a binary timestamp: the decimal is consumed exactly, and the nine-digit
+// shift is only applied where Decimal.ShiftL's precondition holds (no panic on input, C06).
 //@ func (*bitstream).readNsecs
-//@ trusted assumed for ReadTimestamp until the decimal decoding is under contract: consumes exactly length bytes or fails
+//@ split returns
 //@ requires bsStream(b) && bsPos(b) && bsRoom(b, length)
 //@ modifies b.pos, vcStreamOf(b.in).cur
-//@ ensures bsStream(b) && bsPos(b)
-//@ ensures err == nil ==> b.pos == old(b.pos)+length && bsS(b).cur == old(bsS(b).cur)+int(length)
+//@ ensures[C03,C06] bsStream(b)
+//@ ensures[C03,C06] bsPos(b)
+//@ ensures[C03,C08,C15] err == nil ==> b.pos == old(b.pos)+length && bsS(b).cur == old(bsS(b).cur)+int(length)
+//@ safe[C06,C15]
 
 //@ func (*bitstream).ReadTimestamp
 //@ split returns
